@@ -33,7 +33,7 @@ ASSUMPTIONS = [
 ]
 BUDGET = {"quick": {"examples": 320, "wall": 500, "min_evaluations": 100}, "thorough": {"examples": 6000, "wall": 2400, "min_evaluations": 1500}}
 MANDATORY = {
-    t: ["nontrivial", "process:NC", "process:CC", "heavyness:heavy", "heavyness:light", "heavyness:total", "order:1", "order:2", "kind:F2", "kind:FL", "kind:g1", "kind:F3", "h:charm", "h:bottom", "small-x:eta>1e8-reached", "target:other"]
+    t: ["nontrivial", "process:NC", "process:CC", "heavyness:heavy", "heavyness:light", "heavyness:total", "order:1", "order:2", "kind:F2", "kind:FL", "kind:g1", "kind:F3", "h:charm", "h:bottom", "small-x:eta>1e8-reached", "target:other", "heavier-quarks-non-degenerate"]
     for t in ("quick", "thorough")
 }
 SHRINK = {"quick": False, "thorough": True}
@@ -55,10 +55,14 @@ def cases(draw, tier="quick"):
     pto = draw(st.sampled_from([0, 1, 1, 2, 2]))
     m = round(draw(st.floats(1.2, 5.0)), 3)
     th = cards.theory(PTO=pto, NfFF=nfff)
+    # the heavier quarks: degenerate with h, or heavier by generated ratios (their own Q2/m2 is then lower by the ratio squared: same
+    # power law, larger prefactor, which the anchored envelope absorbs) - each massive quark must meet its own asymptotic counterpart
+    r1 = draw(st.sampled_from([1.0, 1.0, 1.5, 2.0, 3.0]))
+    r2 = r1 * draw(st.sampled_from([1.0, 1.0, 1.5, 2.0]))
     if h == "charm":
-        th.update({"mc": m, "mb": m, "mt": m})
+        th.update({"mc": m, "mb": round(m * r1, 4), "mt": round(m * r2, 4)})
     else:
-        th.update({"mc": 1.0, "mb": m, "mt": m})
+        th.update({"mc": 1.0, "mb": m, "mt": round(m * r1, 4)})
     grid = draw(cards.grids(nmin=6, nmax=8, umin=2.5, umax=4.0))
     g = grid["xgrid"]
     # x anywhere in the grid below 0.7 (above, the massive side is below threshold for most of the ladder)
@@ -133,6 +137,8 @@ def check_case(case):
     f2name = f"F2_{hv}"
     ob["observables"] = {name: kin}
     v.label("target:proton" if ob.get("TargetDIS", "proton") == "proton" else "target:other")
+    if len({th["mc"], th["mb"], th["mt"]} - {1.0}) > 1:
+        v.label("heavier-quarks-non-degenerate")
     v.label(f"process:{'NC' if meta['process'] != 'CC' else 'CC'}", f"kind:{kind}", f"h:{case['h']}",
             "heavyness:heavy" if hv == case["h"] else f"heavyness:{hv}")
     with warnings.catch_warnings(), np.errstate(all="ignore"):
